@@ -219,8 +219,65 @@ DTYPES = ["float64", "float64", "float32", "int64", "int32", "uint8"]
 PATHS = ["hdf5", "text", "hdf5>text", "hdf5>norm>text", "text>hdf5", "hdf5>norm>text>hdf5", "text>hdf5>text"]
 
 
+_LIVE_TOKENS = {}
+
+
+def _live_tokens():
+    """reserved prefixes and special markers the code knows, read from the CURRENT source of dataset.py on every run:
+    string constants used in startswith()/endswith() tests and in ==, !=, in comparisons, and module-level str / tuple
+    constants (resolved when a test refers to them by name).  Returns (all tokens, tokens used as prefixes)."""
+    path = core.REPO / "qmi/data/dataset.py"
+    key = str(path)
+    if key in _LIVE_TOKENS:
+        return _LIVE_TOKENS[key]
+    tree = ast.parse(path.read_text())
+    consts = {}
+
+    def strs(node):
+        if isinstance(node, ast.Constant) and isinstance(node.value, str):
+            return [node.value]
+        if isinstance(node, (ast.Tuple, ast.List, ast.Set)):
+            return [x for e in node.elts for x in strs(e)]
+        if isinstance(node, ast.Name) and node.id in consts:
+            return consts[node.id]
+        return []
+    for node in tree.body:
+        if isinstance(node, ast.Assign) and strs(node.value):
+            for t in node.targets:
+                if isinstance(t, ast.Name):
+                    consts[t.id] = strs(node.value)
+    toks, prefixes = set(x for v in consts.values() for x in v), set()
+    for node in ast.walk(tree):
+        if isinstance(node, ast.Call) and isinstance(node.func, ast.Attribute) and node.func.attr in ("startswith", "endswith"):
+            for a in node.args:
+                toks.update(strs(a))
+                if node.func.attr == "startswith":
+                    prefixes.update(strs(a))
+        elif isinstance(node, ast.Compare):
+            for c in [node.left] + list(node.comparators):
+                toks.update(strs(c))
+    toks = sorted(t for t in toks if t and "\n" not in t and len(t) <= 24)
+    _LIVE_TOKENS[key] = (toks, sorted(p for p in prefixes if len(p) >= 4))
+    return _LIVE_TOKENS[key]
+
+
+def _token_family(t: str) -> list:
+    """names equal to, starting with, ending with, containing, and case variants of a token"""
+    if len(t) < 2:
+        return [t, t + "x", "x" + t]
+    fam = [t, t + "x", t + "_a", t + "0_label", "x" + t, "a_" + t + "_b", t.lower(), t.upper(), t.swapcase(), t[:-1], t + t, " " + t, t + " "]
+    return list(dict.fromkeys(fam))
+
+
+def _family_names() -> list:
+    toks, _ = _live_tokens()
+    return list(dict.fromkeys(n for t in toks for n in _token_family(t)))
+
+
 def _gen_attr_name(rng) -> str:
     r = rng.random()
+    if r < 0.12:
+        return rng.choice(_family_names())       # around every reserved prefix / marker of the live module
     if r < 0.6:
         return "".join(rng.choice("abcdefgXYZ_0123") for _ in range(rng.randint(1, 6)))
     if r < 0.8:
@@ -428,12 +485,11 @@ def _expected_rejection(ds, fmt: str):
         [v for v in ds.attrs.values() if isinstance(v, str)] + list(ds.attrs)
     if any(0xD800 <= ord(c) <= 0xDFFF for s in strs for c in s):
         return "lone-surrogate"
+    reserved = _live_tokens()[1]
     for k, v in ds.attrs.items():
-        if k.startswith("QMI_DataSet"):
-            return "reserved-name"
+        if any(k.startswith(p) for p in reserved):
+            return "reserved-name"      # a writer MAY refuse a name under a prefix the module reserves — loudly
         if fmt == "hdf5":
-            if k.startswith("DIMENSION_"):
-                return "reserved-name"
             if k == "" or "\x00" in k:
                 return "h5-attr-name"
             if isinstance(v, int) and not isinstance(v, bool) and not (-2**63 <= v < 2**64):
@@ -583,12 +639,28 @@ CORPUS_SPECS = [
 ]
 
 
+def _family_specs() -> list:
+    """datasets whose attribute names, labels and units run through the whole family around every token"""
+    names = _family_names()
+    out = []
+    for i in range(0, len(names), 4):
+        chunk = names[i:i + 4]
+        lab = [ord(c) for c in chunk[0]]
+        out.append({"name": "fam%d" % (i // 4), "shape": [2, 2], "dtype": "float64", "data": [1.0, 2.0, 3.0, 4.0], "ts": "11.5",
+                    "axis_label": [lab], "axis_unit": [[ord(c) for c in chunk[-1]]],
+                    "col_label": [lab, []], "col_unit": [[], [ord(c) for c in chunk[len(chunk) // 2]]],
+                    "scales": [{"dtype": "float64", "v": [0.5, 1.5]}] if (i // 4) % 2 else [None],
+                    "attrs": [[[ord(c) for c in nm], ({"t": "i", "v": str(j + 1)} if j % 2 == 0 else {"t": "s", "v": [ord(c) for c in nm]})]
+                              for j, nm in enumerate(chunk)]})
+    return out
+
+
 def _section_datasets(ctx: Ctx, res: Result, n_specs: int, use_model=True):
     from qmi.data.datastore import DataFolder
     rng = ctx.rng
     with tempfile.TemporaryDirectory(prefix="c17ds_") as td:
         folder = DataFolder(td, None, None, None)
-        specs = [dict(s) for s in CORPUS_SPECS] + [_gen_spec(rng, i) for i in range(n_specs)]
+        specs = [dict(s) for s in CORPUS_SPECS] + _family_specs() + [_gen_spec(rng, i) for i in range(n_specs)]
         seen_sig: dict = {}
         for si, spec in enumerate(specs):
             for pi, path in enumerate(PATHS):
